@@ -227,6 +227,13 @@ def step (st : St) (ws : List String) : St × String :=
       let s1 := RoundModel.step s0 (.compute u)
       ({ st with model := some s1 }, showTree s1.layout)
     | none => (st, "bad-op")
+  | "roundtree" :: rest =>
+    -- direct stream: `round_layout` applied to an arbitrary tree of unrounded layouts (no history, no monitor:
+    -- at magnitudes ≥ 2^23 the f32 sums themselves are inexact, so only model/implementation agreement is asked)
+    match parseWhole parseF32 rest with
+    | some u => (st, showTree (RoundModel.roundLayout u))
+    | none => (st, "bad-op")
+  | "mon" :: "roundtree" :: _ => (st, "ok")
   | ["enable"] =>
     ({ st with flag := true, model := st.model.map (RoundModel.step · .enableRounding) }, "ok")
   | ["disable"] =>
